@@ -56,6 +56,7 @@ def main(tier='quick'):
                 add(K.run_find_scp(rng, pol, mid, ctx, ms, worklist=bool(nm % 2)), {'svc': 'qr_find_scp', 'mid': mid, 'ctx': ctx, 'matches': ms, 'policy': pol})
             for n in (0, 1, 3):
                 add(K.run_move_scp(rng, pol, mid, ctx, n, [rng.choice([0, 0xB000, 0xA700]) for _ in range(n)]), {'svc': 'qr_move_scp', 'mid': mid, 'ctx': ctx, 'n': n, 'policy': pol})
+            add(K.run_move_scp(rng, pol, mid, ctx, 0, [], known=False), {'svc': 'qr_move_scp', 'mid': mid, 'ctx': ctx, 'n': 0, 'policy': pol, 'destination': 'unknown'})
         for mid in mids[:6]:
             plan = [('store', rng.choice([7, 9]), rng.choice(K.MIDS), 1) for _ in range(3)]
             add(K.run_get_scu(rng, mid, 1, plan, [0, 'EHE', 0xB000], pol), {'svc': 'qr_get_scu', 'mid': mid, 'plan': plan, 'policy': pol})
